@@ -15,15 +15,27 @@ import (
 )
 
 // Env is what a worker process gives to an execution.
+// SoloObs is one observation of a document executed alone in a fresh process (isolated baseline of C07).
+type SoloObs struct {
+	Kind  string `json:"k"`
+	Res   string `json:"r"`
+	Bytes []byte `json:"b,omitempty"`
+}
+
 type Env struct {
-	Stats   *sim.Stats
-	Log     *sim.Log
-	Tmp     string // private scratch directory of this worker process
-	Tier    string
-	Instr   bool          // built against the instrumented copy (map-order and lock seams present)
-	Race    bool          // race detector compiled in
-	RaceNew func() string // race reports written since the previous call ("" if none)
-	Record  bool          // keep a readable trace
+	// SoloSlot >= 0: this process exists to execute one document of the case alone (set by the worker's "solo" command);
+	// the observations go to SoloOut. SoloFresh starts such a process (nil when not available).
+	SoloSlot  int
+	SoloOut   *[]SoloObs
+	SoloFresh func(c *sim.Case, slot int) ([]SoloObs, error)
+	Stats     *sim.Stats
+	Log       *sim.Log
+	Tmp       string // private scratch directory of this worker process
+	Tier      string
+	Instr     bool          // built against the instrumented copy (map-order and lock seams present)
+	Race      bool          // race detector compiled in
+	RaceNew   func() string // race reports written since the previous call ("" if none)
+	Record    bool          // keep a readable trace
 }
 
 // Property is one check.
